@@ -184,6 +184,13 @@ Example c14_examples :
     = Some [(0, [(0, [0])]); (1, [(1, [0])]); (2, [(1, [1]); (2, [0; 1; 2])])].
 Proof. vm_compute. auto. Qed.
 
+(* subs_nodup is needed: the code (and the model) lose partition 0 when C0 lists t0 twice *)
+Example c14_range_subs_nodup_needed :
+  let ppt := [(0, Some 3)] in let ms := [(0, [0; 0]); (1, [0])] in
+  range_assign ppt ms = [(0, [(0, [1])]); (1, [(0, [2])])]
+  /\ valid_b ppt ms (triples_of (range_assign ppt ms)) = false.
+Proof. vm_compute. auto. Qed.
+
 (* an accepted sticky log with a Move and the hypotheses of c14_sticky_valid *)
 Example c14_sticky_hyps_satisfiable :
   exists r, ctl_run [(0, Some 1); (1, Some 5)] [(0, [1]); (1, [1]); (2, [1])] []
